@@ -2,7 +2,7 @@
    Only statements closed by [exact], their assumption audits, and non-vacuity examples. *)
 From Model Require Import Engine.
 From Spec Require Import Sem FindSpec.
-From Proofs Require Import RefineBase RefineExec Refine Attempt FindCorrect SemSound Window.
+From Proofs Require Import RefineBase RefineExec Refine Attempt FindCorrect SemSound Window UnrollSem.
 
 (* The central refinement: whenever the specification derives the ordered outcome list l for the
    resolved pattern r from state s, the VM running r's code (placed anywhere in any program that
@@ -48,6 +48,21 @@ Theorem C01_oracle_sound :
   forall text start defs fuel r s l, outs_f text start defs fuel r s = Some l -> outs text start defs r s l.
 Proof. exact outs_f_sound. Qed.
 Print Assumptions C01_oracle_sound.
+
+(* "as written": the generator does not emit `between m and n b` as one loop but as m copies of b
+   followed by a loop of 0 .. n-m iterations (nothing when m = n).  In the specification that
+   unrolled form means exactly the bounded repetition, for every body whose outcomes always consume
+   something (a copy accepts a zero-width iteration, the loop rejects it: the one difference), every
+   copy that means the same as b (copies differ in loop ids and offsets only), every text and state. *)
+Theorem C01_unrolling_preserves_meaning :
+  forall text start defs id id' mn mx fw b b' copies,
+  UnrollSem.advances text start defs b -> UnrollSem.defined text start defs b ->
+  UnrollSem.sem_eq text start defs b' b -> (mx = -1 \/ Z.of_nat mn <= mx)%Z ->
+  length copies = mn -> Forall (fun x => UnrollSem.sem_eq text start defs x b) copies ->
+  forall s l, outs text start defs (fold_right XSeq (UnrollSem.loop_tail id' mn mx fw b') copies) s l <->
+              outs text start defs (XLoop id mn mx fw [] b) s l.
+Proof. exact UnrollSem.unroll_sem_lemma. Qed.
+Print Assumptions C01_unrolling_preserves_meaning.
 
 (* non-vacuity: a loop inside an alternation inside a recursive subroutine, on "aabbd":
    {'a' maybe s 'b'} = s 'd'  has the single outcome 5, and the hypotheses of C01_attempt hold *)
